@@ -5,14 +5,22 @@
    keys are renamed "k1", "k2", ... consistently over both graphs.
 
      r.op        "clone" | "bind" | "wait_on" | "checkpoint"
-     r.g, r.g2   graphs before / after: sequences of [k |-> key, e |-> expression]
-     r.out       output keys of the children (inputs of wait_on / checkpoint), flattened
-     r.out2      output keys of the returned collections, in the same order
-     r.omitout   output keys of the omit collections
-     r.keep      keys of the input graph the result may still use (graphs of omit / parents)
-     r.parents   output keys of the parents
+     r.g, r.g2   graphs before / after: sequences of [k |-> key, e |-> expression].  r.g2 is the JOINT graph
+                 of everything returned: a record may hold TWO calls that share a member collection (one
+                 collection in two wait_on groups, one child bound to two different parents, two clones
+                 with different seeds) whose results are then used together, as one dask.compute does
+     r.ms        one record per call:
+       out         output keys of the children (inputs of wait_on / checkpoint), flattened
+       out2        output keys of the returned collections, in the same order
+       omitout     output keys of the omit collections
+       keep        keys of the input graph the result may still use (graphs of omit / parents)
+       parents     output keys of the parents
      r.obs.raised     "" or the exception raised by the call or by computing the result
      r.obs.same       the returned collections compute to the values of the inputs (None for checkpoint)
+     r.obs.meta       every returned collection has the type, the shape of __dask_keys__ and the metadata of the
+                      collection it replaces (array shape / dtype / chunks, bag npartitions, Delayed declared
+                      length and tuple unpacking); checkpoint: a Delayed without length
+     r.obs.seed       clone / bind: the same seed regenerates the same keys, another seed (or none) other keys
      r.obs.events     events of an execution of the result under an adversarial schedule (may be empty)
 
    TLC computes denotations and ancestry itself and decides the clauses.       *)
@@ -21,19 +29,25 @@ EXTENDS GraphManip, TraceIO
 ExprOf(q, k) == q[CHOOSE i \in DOMAIN q : q[i].k = k].e
 Graph(q) == [k \in { q[i].k : i \in DOMAIN q } |-> ExprOf(q, k)]
 
+\* the clauses of one call m = [out, out2, omitout, keep, parents] in the joint result graph g2
+BadM(op, g, g2, m, events) ==
+  LET cb == op \in {"clone", "bind"} IN
+  Clause("Denotes", Denotes(op, g, m.out, g2, m.out2))
+  \cup (IF cb THEN Clause("Disjoint", Disjoint(m.out, m.out2, RangeS(m.omitout)))
+                   \cup Clause("Regenerated", Regenerated(g, g2, m.out2, RangeS(m.keep)))
+        ELSE {})
+  \cup Clause("HappensBefore", HappensBefore(op, g, m.out, g2, m.out2, RangeS(m.parents)))
+  \cup Clause("Order", Len(events) = 0
+                       \/ OrderOK(events, Waiters(op, g, g2, m.out2), Awaited(op, m.out, RangeS(m.parents))))
+
 Bad(r) ==
   LET g  == Graph(r.g)
       g2 == Graph(r.g2)
-      cb == r.op \in {"clone", "bind"}
   IN IF r.obs.raised # "" THEN {"UnexpectedRaise"}
      ELSE Clause("Computes", r.obs.same)
-          \cup Clause("Denotes", Denotes(r.op, g, r.out, g2, r.out2))
-          \cup (IF cb THEN Clause("Disjoint", Disjoint(r.out, r.out2, RangeS(r.omitout)))
-                           \cup Clause("Regenerated", Regenerated(g, g2, r.out2, RangeS(r.keep)))
-                ELSE {})
-          \cup Clause("HappensBefore", HappensBefore(r.op, g, r.out, g2, r.out2, RangeS(r.parents)))
-          \cup Clause("Order", Len(r.obs.events) = 0
-                               \/ OrderOK(r.obs.events, Waiters(r.op, g, g2, r.out2), Awaited(r.op, r.out, RangeS(r.parents))))
+          \cup Clause("Meta", r.obs.meta)
+          \cup Clause("Seed", r.obs.seed)
+          \cup UNION { BadM(r.op, g, g2, r.ms[i], r.obs.events) : i \in DOMAIN r.ms }
 
 Init == TInit
 Next == TNext(Bad)
